@@ -217,4 +217,142 @@ Proof.
     simpl_ne. reflexivity.
 Qed.
 
+(** hence the result is well formed *)
+Theorem collapse_midpoint_wf E n ks l c w cnt vid w' cnt' :
+  let a := beta w 1 l in let b := beta w 0 l in let r := beta w 2 l in
+  let c0 := beta w 1 r in let d := beta w 0 r in
+  let A2 := beta w 2 a in let B2 := beta w 2 b in let C2 := beta w 2 c0 in let D2 := beta w 2 d in
+  wf2 n w -> l < n ->
+  NoDup [l; a; b; r; c0; d; A2; B2; C2; D2] -> ~ In 0 [l; a; b; r; c0; d; A2; B2; C2; D2] ->
+  beta w 1 a = b -> beta w 1 c0 = d ->
+  run E (collapse_edge_to_midpoint n ks b l a d r c0) c w cnt = (Done vid, w', cnt') ->
+  wf2 n w'.
+Proof.
+  intros a b r c0 d A2 B2 C2 D2 W Hln Hnd Hnz Bab Bcd Hr.
+  assert (Hl0 : l <> 0) by (intros Z; apply Hnz; left; auto).
+  assert (Ha0 : a <> 0) by (intros Z; apply Hnz; right; left; auto).
+  assert (Hb0 : b <> 0) by (intros Z; apply Hnz; do 2 right; left; auto).
+  assert (Hr0 : r <> 0) by (intros Z; apply Hnz; do 3 right; left; auto).
+  assert (Hc0 : c0 <> 0) by (intros Z; apply Hnz; do 4 right; left; auto).
+  assert (Hd0 : d <> 0) by (intros Z; apply Hnz; do 5 right; left; auto).
+  assert (HA0 : A2 <> 0) by (intros Z; apply Hnz; do 6 right; left; auto).
+  assert (HB0 : B2 <> 0) by (intros Z; apply Hnz; do 7 right; left; auto).
+  assert (HC0 : C2 <> 0) by (intros Z; apply Hnz; do 8 right; left; auto).
+  assert (HD0 : D2 <> 0) by (intros Z; apply Hnz; do 9 right; left; auto).
+  pose proof W as [W1 W2 W3 W4 W5 W6].
+  assert (Han : a < n) by (apply W2; [lia|exact Hln]).
+  assert (Hbn : b < n) by (apply W2; [lia|exact Hln]).
+  assert (Hrn : r < n) by (apply W2; [lia|exact Hln]).
+  assert (Hcn : c0 < n) by (apply W2; [lia|exact Hrn]).
+  assert (Hdn : d < n) by (apply W2; [lia|exact Hrn]).
+  assert (HAn : A2 < n) by (apply W2; [lia|exact Han]).
+  assert (HBn : B2 < n) by (apply W2; [lia|exact Hbn]).
+  assert (HCn : C2 < n) by (apply W2; [lia|exact Hcn]).
+  assert (HDn : D2 < n) by (apply W2; [lia|exact Hdn]).
+  (* the two triangles, both directions; the gluings *)
+  assert (Bbl : beta w 1 b = l) by (apply (W4 l Hln); exact Hb0).
+  assert (Bdr : beta w 1 d = r) by (apply (W4 r Hrn); exact Hd0).
+  assert (Brl : beta w 2 r = l) by (apply (W5 l Hln); exact Hr0).
+  assert (P0a : beta w 0 a = l) by (apply (W3 l Hln); exact Ha0).
+  assert (P0b : beta w 0 b = a) by (rewrite <- Bab; apply (W3 a Han); rewrite Bab; exact Hb0).
+  assert (P0c : beta w 0 c0 = r) by (apply (W3 r Hrn); exact Hc0).
+  assert (P0d : beta w 0 d = c0) by (rewrite <- Bcd; apply (W3 c0 Hcn); rewrite Bcd; exact Hd0).
+  assert (G2A : beta w 2 A2 = a) by (apply (W5 a Han); exact HA0).
+  assert (G2B : beta w 2 B2 = b) by (apply (W5 b Hbn); exact HB0).
+  assert (G2C : beta w 2 C2 = c0) by (apply (W5 c0 Hcn); exact HC0).
+  assert (G2D : beta w 2 D2 = d) by (apply (W5 d Hdn); exact HD0).
+  destruct (collapse_midpoint_topology E n ks l c w cnt vid w' cnt' Hnd Hnz Bab Bbl Bcd Bdr Brl Hr) as (Hb & Hu).
+  fold a b r c0 d A2 B2 C2 D2 in Hb, Hu.
+  set (six := fun x => (x =? l) || (x =? a) || (x =? b) || (x =? r) || (x =? c0) || (x =? d)).
+  assert (Hb' : forall i x, beta w' i x =
+     if six x then (if i <? 3 then 0 else beta w i x)
+     else if i =? 2 then (if x =? B2 then A2 else if x =? A2 then B2 else if x =? D2 then C2 else if x =? C2 then D2 else beta w 2 x)
+     else beta w i x) by (intros i x; rewrite Hb; reflexivity).
+  assert (Hu' : forall x, unused w' x = if six x then true else unused w x) by (intros x; rewrite Hu; reflexivity).
+  clear Hb Hu. rename Hb' into Hb. rename Hu' into Hu.
+  assert (Six : forall x, six x = true <-> (x = l \/ x = a \/ x = b \/ x = r \/ x = c0 \/ x = d)).
+  { intros x. unfold six. rewrite !orb_true_iff, !N.eqb_eq. tauto. }
+  assert (D : l <> a /\ l <> b /\ l <> r /\ l <> c0 /\ l <> d /\ l <> A2 /\ l <> B2 /\ l <> C2 /\ l <> D2 /\ a <> b /\ a <> r /\ a <> c0 /\ a <> d /\ a <> A2 /\ a <> B2 /\ a <> C2 /\ a <> D2 /\ b <> r /\ b <> c0 /\ b <> d /\ b <> A2 /\ b <> B2 /\ b <> C2 /\ b <> D2 /\ r <> c0 /\ r <> d /\ r <> A2 /\ r <> B2 /\ r <> C2 /\ r <> D2 /\ c0 <> d /\ c0 <> A2 /\ c0 <> B2 /\ c0 <> C2 /\ c0 <> D2 /\ d <> A2 /\ d <> B2 /\ d <> C2 /\ d <> D2 /\ A2 <> B2 /\ A2 <> C2 /\ A2 <> D2 /\ B2 <> C2 /\ B2 <> D2 /\ C2 <> D2).
+  { clear - Hnd. repeat match goal with Hx : NoDup (_ :: _) |- _ => inversion Hx; clear Hx; subst end.
+    cbn [In] in *. repeat split; intros Q; intuition congruence. }
+  destruct D as (Q0 & Q1 & Q2 & Q3 & Q4 & Q5 & Q6 & Q7 & Q8 & Q9 & Q10 & Q11 & Q12 & Q13 & Q14 & Q15 & Q16 & Q17 & Q18 & Q19 & Q20 & Q21 & Q22 & Q23 & Q24 & Q25 & Q26 & Q27 & Q28 & Q29 & Q30 & Q31 & Q32 & Q33 & Q34 & Q35 & Q36 & Q37 & Q38 & Q39 & Q40 & Q41 & Q42 & Q43 & Q44).
+  (* images of the six darts stay among the six, in w *)
+  assert (In1 : forall x, six x = true -> six (beta w 1 x) = true).
+  { intros x Hx. apply Six in Hx. apply Six. destruct Hx as [->|[->|[->|[->|[->| ->]]]]]; fold a c0; rewrite ?Bab, ?Bbl, ?Bcd, ?Bdr; tauto. }
+  assert (In0 : forall x, six x = true -> six (beta w 0 x) = true).
+  { intros x Hx. apply Six in Hx. apply Six. destruct Hx as [->|[->|[->|[->|[->| ->]]]]]; fold b d; rewrite ?P0a, ?P0b, ?P0c, ?P0d; tauto. }
+  assert (Out : forall x, six x = false -> x <> l /\ x <> a /\ x <> b /\ x <> r /\ x <> c0 /\ x <> d).
+  { intros x Hx. repeat split; intros ->; match type of Hx with six ?z = false => assert (Q : six z = true) by (apply Six; tauto) end; congruence. }
+  constructor.
+  - (* null dart *)
+    intros i Hi. rewrite Hb. assert (Q : six 0 = false).
+    { destruct (six 0) eqn:Q; [|reflexivity]. apply Six in Q. destruct Q as [Q|[Q|[Q|[Q|[Q|Q]]]]]; congruence. }
+    rewrite Q. destruct (i =? 2) eqn:E2.
+    + destruct (N.eqb_spec 0 B2); [congruence|]. destruct (N.eqb_spec 0 A2); [congruence|].
+      destruct (N.eqb_spec 0 D2); [congruence|]. destruct (N.eqb_spec 0 C2); [congruence|]. apply W1; reflexivity.
+    + apply W1; exact Hi.
+  - (* range *)
+    intros i x Hi Hx. rewrite Hb. destruct (six x).
+    + destruct (i <? 3); [apply (N.le_lt_trans _ l); [apply N.le_0_l|exact Hln]|apply W2; assumption].
+    + destruct (i =? 2); [|apply W2; assumption].
+      destruct (x =? B2); [exact HAn|]. destruct (x =? A2); [exact HBn|]. destruct (x =? D2); [exact HCn|].
+      destruct (x =? C2); [exact HDn|]. apply W2; [reflexivity|exact Hx].
+  - (* beta0 after beta1 *)
+    intros x Hx Hnz1. rewrite Hb in Hnz1. destruct (six x) eqn:Sx; [change (1 <? 3) with true in Hnz1; congruence|].
+    change (1 =? 2) with false in Hnz1. cbv iota in Hnz1.
+    rewrite (Hb 1 x), Sx. change (1 =? 2) with false. cbv iota.
+    rewrite Hb. change (0 =? 2) with false.
+    destruct (six (beta w 1 x)) eqn:Sy.
+    + apply In0 in Sy. rewrite (W3 x Hx Hnz1) in Sy. congruence.
+    + cbv iota. apply W3; assumption.
+  - (* beta1 after beta0 *)
+    intros x Hx Hnz0. rewrite Hb in Hnz0. destruct (six x) eqn:Sx; [change (0 <? 3) with true in Hnz0; congruence|].
+    change (0 =? 2) with false in Hnz0. cbv iota in Hnz0.
+    rewrite (Hb 0 x), Sx. change (0 =? 2) with false. cbv iota.
+    rewrite Hb. change (1 =? 2) with false.
+    destruct (six (beta w 0 x)) eqn:Sy.
+    + apply In1 in Sy. rewrite (W4 x Hx Hnz0) in Sy. congruence.
+    + cbv iota. apply W4; assumption.
+  - (* beta2 involution *)
+    intros x Hx Hnz2. rewrite Hb in Hnz2. destruct (six x) eqn:Sx; [change (2 <? 3) with true in Hnz2; congruence|].
+    change (2 =? 2) with true in Hnz2. cbv iota in Hnz2.
+    destruct (Out x Sx) as (O1 & O2 & O3 & O4 & O5 & O6).
+    rewrite (Hb 2 x), Sx. change (2 =? 2) with true. cbv iota.
+    assert (SA : six A2 = false) by (destruct (six A2) eqn:Q; [apply Six in Q; intuition congruence|reflexivity]).
+    assert (SB : six B2 = false) by (destruct (six B2) eqn:Q; [apply Six in Q; intuition congruence|reflexivity]).
+    assert (SC : six C2 = false) by (destruct (six C2) eqn:Q; [apply Six in Q; intuition congruence|reflexivity]).
+    assert (SD : six D2 = false) by (destruct (six D2) eqn:Q; [apply Six in Q; intuition congruence|reflexivity]).
+    destruct (N.eqb_spec x B2) as [->|NB].
+    { rewrite Hb, SA. change (2 =? 2) with true. cbv iota. simpl_ne. split; [reflexivity|congruence]. }
+    destruct (N.eqb_spec x A2) as [->|NA].
+    { rewrite Hb, SB. change (2 =? 2) with true. cbv iota. simpl_ne. split; [reflexivity|congruence]. }
+    destruct (N.eqb_spec x D2) as [->|ND].
+    { rewrite Hb, SC. change (2 =? 2) with true. cbv iota. simpl_ne. split; [reflexivity|congruence]. }
+    destruct (N.eqb_spec x C2) as [->|NC].
+    { rewrite Hb, SD. change (2 =? 2) with true. cbv iota. simpl_ne. split; [reflexivity|congruence]. }
+    rewrite ?(proj2 (N.eqb_neq x B2) NB), ?(proj2 (N.eqb_neq x A2) NA), ?(proj2 (N.eqb_neq x D2) ND), ?(proj2 (N.eqb_neq x C2) NC) in Hnz2.
+    destruct (W5 x Hx Hnz2) as (I2 & I3).
+    set (y := beta w 2 x) in *.
+    assert (Sy : six y = false).
+    { destruct (six y) eqn:Q; [|reflexivity]. apply Six in Q. exfalso.
+      destruct Q as [Q|[Q|[Q|[Q|[Q|Q]]]]]; rewrite Q in I2; fold r A2 B2 C2 D2 in I2; rewrite ?Brl in I2; congruence. }
+    rewrite Hb, Sy. change (2 =? 2) with true. cbv iota.
+    assert (yB : y <> B2) by (intros Q; rewrite Q, G2B in I2; congruence).
+    assert (yA : y <> A2) by (intros Q; rewrite Q, G2A in I2; congruence).
+    assert (yD : y <> D2) by (intros Q; rewrite Q, G2D in I2; congruence).
+    assert (yC : y <> C2) by (intros Q; rewrite Q, G2C in I2; congruence).
+    rewrite (proj2 (N.eqb_neq y B2) yB), (proj2 (N.eqb_neq y A2) yA), (proj2 (N.eqb_neq y D2) yD), (proj2 (N.eqb_neq y C2) yC).
+    split; assumption.
+  - (* removed darts are free *)
+    intros x Hx Hux i Hi. rewrite Hu in Hux. rewrite Hb. destruct (six x) eqn:Sx.
+    + assert (Q : (i <? 3) = true) by (apply N.ltb_lt; exact Hi). rewrite Q. reflexivity.
+    + pose proof (W6 x Hx Hux) as Fr.
+      destruct (i =? 2) eqn:E2; [|apply Fr; exact Hi].
+      destruct (N.eqb_spec x B2) as [->|NB]; [rewrite (Fr 2 eq_refl) in G2B; congruence|].
+      destruct (N.eqb_spec x A2) as [->|NA]; [rewrite (Fr 2 eq_refl) in G2A; congruence|].
+      destruct (N.eqb_spec x D2) as [->|ND]; [rewrite (Fr 2 eq_refl) in G2D; congruence|].
+      destruct (N.eqb_spec x C2) as [->|NC]; [rewrite (Fr 2 eq_refl) in G2C; congruence|].
+      apply Fr. reflexivity.
+Qed.
+
 End CollapseTopo.
